@@ -100,6 +100,11 @@ def build(case):
                                              and rng.random() < 0.3)
         if fam in ('atom-atomrho',):
             negative = False
+        if fam == 'mass-atomrho':
+            # weight fractions used with an atom density: the converter warns
+            # and writes a composition without nuclides.  Not a C10 family
+            # (the property does not say what the amounts are); C08 uses it.
+            negative = True
         nent = rng.randint(1, 4)
         if fam == 'many-entries':
             nent = rng.randint(6, 12)
@@ -130,7 +135,11 @@ def build(case):
         if fam == 'atom-atomrho' or (not negative and rng.random() < (
                 0.8 if fam == 'repeated-nuclide' else 0.35)):
             dens.append(rng.choice(['0.0602', '8.5e-2', '1.0', '4.2E-02']))
-        if fam != 'atom-atomrho':
+        if fam == 'mass-atomrho':
+            dens.append(rng.choice(['0.1003', '8.5e-2', '1.0']))
+            if rng.random() < 0.5:
+                dens.append('-2.7')
+        elif fam != 'atom-atomrho':
             dens.append('-' + rng.choice(['1.0', '2.7', '10.5', '0.998',
                                           '7.8e0', '19']))
         if fam == 'two-densities':
